@@ -2,8 +2,8 @@
 from vlib.linkcheck import run_link
 
 LEAN_MODULE = "RemocModel.Props.C11"
-LEAN_EXES = ["link"]
-HARNESS_BINS = ["mux"]
+LEAN_EXES = ["link", "base"]
+HARNESS_BINS = ["mux", "base"]
 THEOREMS = [
     "Remoc.Link.eos_after_all_data",
     "Remoc.Link.close_loses_nothing",
@@ -19,8 +19,9 @@ RULE = ("port level, exact mode: streams of whole sends / try-sends / chunk stre
         "(incl. error classification of failed sends and is_closed). Predicates on the real run: end-of-stream is reported only "
         "after every completed send was delivered; a send that fails as closed reports gracefully=1 iff ReceiveClose (not "
         "ReceiveFinish) reached the sender first; no send started after the sender learned of the close succeeds; completed sends "
-        "are all delivered at the drain marker. Non-trivial: the trace contains a close or drop. Typed channels (base, mpsc, lr, "
-        "oneshot, bin): see coverage.typed.")
+        "are all delivered at the drain marker. Non-trivial: the trace contains a close or drop. Half-by-half teardown of a port "
+        "in every order with a liveness probe on a second port: a dispatcher that ends with an error on a healthy transport is a "
+        "failure. Typed channels: coverage.typed -- " + __import__("vlib.typedcheck", fromlist=["C11_TYPED_RULE"]).C11_TYPED_RULE)
 TRUSTED_BASE = [
     "M_link (close / dropReceiver / dropSender labels, the notification FIFO `back`, SendFinish in the data FIFO)",
     "credit returns deferred by a full event queue may be overtaken by a close notification: the driver reorders the model's FIFO accordingly",
@@ -39,10 +40,16 @@ DESIGN_REF = "DESIGN.md section 5, C11"
 
 
 def run(ctx, replay=None):
-    run_link(ctx, replay, corpus_dirs=("C11",))
-    try:
-        from vlib.typedcheck import run_c11_typed
-    except ImportError:
+    from vlib.typedcheck import run_c11_typed
+    if replay:
+        typed = "typed-channel harness" in open(replay).read(2000)
+        if typed:
+            ctx.coverage.update(run_c11_typed(ctx, replay))
+        else:
+            run_link(ctx, replay, corpus_dirs=("C11",))
         return
-    if not replay:
-        run_c11_typed(ctx)
+    run_link(ctx, None, corpus_dirs=("C11",))
+    cov = run_c11_typed(ctx)
+    ctx.coverage["typed"] = cov
+    ctx.coverage["evaluations"] = ctx.coverage.get("evaluations", 0) + cov["evaluations"]
+    ctx.coverage["distinct_nontrivial"] = ctx.coverage.get("distinct_nontrivial", 0) + cov["distinct_nontrivial"]
